@@ -248,8 +248,26 @@ func (m *SessionManager) RemoveSession(id uint16) {
 	defer m.mu.Unlock()
 
 	if session, ok := m.sessions[id]; ok {
-		delete(m.macToSession, session.ClientMAC.String())
 		delete(m.sessions, id)
+		m.unindexMAC(session.ClientMAC.String(), id)
+	}
+}
+
+// unindexMAC removes the MAC index entry of a session that has just been
+// removed. A MAC can have several sessions; the entry is only touched if it
+// points at the removed one, and is then re-pointed at a remaining session of
+// that MAC so that it stays reachable by MAC. The caller holds m.mu.
+func (m *SessionManager) unindexMAC(mac string, removedID uint16) {
+	if cur, ok := m.macToSession[mac]; !ok || cur != removedID {
+		return
+	}
+	delete(m.macToSession, mac)
+	for otherID, other := range m.sessions {
+		if other.ClientMAC.String() == mac {
+			if cur, ok := m.macToSession[mac]; !ok || otherID < cur {
+				m.macToSession[mac] = otherID
+			}
+		}
 	}
 }
 
@@ -286,8 +304,8 @@ func (m *SessionManager) CleanupExpired(timeout time.Duration) int {
 		session.mu.RUnlock()
 
 		if inactive {
-			delete(m.macToSession, session.ClientMAC.String())
 			delete(m.sessions, id)
+			m.unindexMAC(session.ClientMAC.String(), id)
 			removed++
 		}
 	}
